@@ -873,6 +873,82 @@ def gen_C09(rng):
     return ctx.text()
 
 
+def nested_model(rng, sizes):
+    """list of event minterm positions for a model of nested counters: chains on
+    lower variables, unconditional moves and 'carry' events on upper ones, and
+    'diamonds': two routes of different length to the same value of an upper
+    variable (a direct carry that needs lower-level steps first, and a detour
+    through another value), followed by an onward move -- so that a saturated
+    node is improved in its offset only (same sub-function, smaller distance)"""
+    k = len(sizes)
+    evs = []
+
+    def ev(spec):
+        pos = []
+        for u in range(k):
+            pos += spec.get(u, ["x", "="])
+        evs.append(pos)
+
+    for v in range(k):
+        if v == 0 or rng.random() < 0.5:
+            upto = rng.randint(2, sizes[v])
+            for a in range(upto - 1):
+                ev({v: [str(a), str(a + 1)]})
+    for v in range(1, k):
+        for _ in range(rng.randint(0, 2)):
+            a, b = rng.randrange(sizes[v]), rng.randrange(sizes[v])
+            if a != b:
+                ev({v: [str(a), str(b)]})
+        for _ in range(rng.randint(0, 2)):
+            lo = rng.randrange(v)
+            ev({v: [str(rng.randrange(sizes[v])), str(rng.randrange(sizes[v]))],
+                lo: [str(rng.randrange(sizes[lo])), "0"]})
+        if sizes[v] >= 3 and rng.random() < 0.6:
+            vals = list(range(sizes[v]))
+            a = 0 if rng.random() < 0.7 else rng.choice(vals)
+            rest = [x for x in vals if x != a]
+            rng.shuffle(rest)
+            b, m = rest[0], rest[1]
+            lo = rng.randrange(v)
+            c = rng.randrange(1, sizes[lo])
+            ev({v: [str(a), str(b)], lo: [str(c), "0"]})       # long route: carry
+            ev({v: [str(a), str(m)]})                           # detour
+            ev({v: [str(m), str(b)]})
+            if len(rest) > 2:
+                ev({v: [str(b), str(rest[2])]})                 # onward
+    rng.shuffle(evs)
+    return evs
+
+
+def gen_C08_dist(rng):
+    """distance-valued saturation vs breadth-first on nested-counter models"""
+    L = ["init " + rand_ctopts(rng)]
+    k = rng.choice([2, 2, 3])
+    sizes = [rng.choice([3, 4]) for _ in range(k)]
+    L.append("domain D " + " ".join(map(str, sizes)))
+    evp = rng.random() < 0.7
+    if evp:
+        L.append("forest S D set int evp %s %s" % (rng.choice(RULES_SET), rand_opts(rng)))
+    else:
+        L.append("forest S D set int mt fr %s" % rand_opts(rng))
+    L.append("forest M D rel bool mt ir %s" % rand_opts(rng))
+    for m in range(rng.randint(2, 4)):
+        parts = ["coll", "r%d" % m, "M", "max", "0"]
+        for pos in nested_model(rng, sizes):
+            parts += [";"] + pos + ["=>", "1"]
+        L.append(" ".join(parts))
+        init = " ".join("0" for _ in sizes) if rng.random() < 0.7 else " ".join(str(rng.randrange(z)) for z in sizes)
+        if evp:
+            L.append("coll s%d S min inf ; %s => %d" % (m, init, rng.choice([0, 0, 1])))
+        else:
+            L.append("coll s%d S max -1 ; %s => %d" % (m, init, rng.choice([0, 0, 1])))
+        pre = "" if rng.random() < 0.8 else "r"
+        L.append("apply a%d S %sreach_sat s%d r%d" % (m, pre, m, m))
+        L.append("apply b%d S %sreach_nofs s%d r%d" % (m, pre, m, m))
+        L.append("eq a%d b%d" % (m, m))
+    return "\n".join(L) + "\n"
+
+
 def gen_C08(rng):
     ctx = Ctx(rng)
     ctx.emit("init " + rand_ctopts(rng))
@@ -901,8 +977,11 @@ def gen_C08(rng):
                 parts += [";"] + rand_pos_set(rng, d, rng.choice([0, 0, 0.3])) + ["=>", "1"]
         elif kind == "evp":
             parts = ["coll", s, fs.name, "min", "inf"]
-            for _ in range(rng.choice([1, 1, 2, 3])):
-                parts += [";"] + rand_pos_set(rng, d, rng.choice([0, 0, 0.3])) + ["=>", str(rng.choice([0, 0, 0, 1, 2]))]
+            if rng.random() < 0.5:
+                parts += [";"] + ["0"] * len(d.sizes) + ["=>", "0"]
+            else:
+                for _ in range(rng.choice([1, 1, 2, 3])):
+                    parts += [";"] + rand_pos_set(rng, d, rng.choice([0, 0, 0.3])) + ["=>", str(rng.choice([0, 0, 0, 1, 2]))]
         else:
             parts = ["coll", s, fs.name, "max", "-1"]
             for _ in range(rng.choice([1, 1, 2, 3])):
@@ -933,7 +1012,34 @@ def gen_C08(rng):
             ctx.edges[r] = fr
         else:
             fr = rng.choice(rels)
-            gen_rel_minterms(ctx, fr, r, nmax=8, p_dc=rng.choice([0, 0.15, 0.3]), p_same=rng.choice([0.2, 0.5, 0.8]))
+            if rng.random() < 0.4:
+                parts = ["coll", r, fr.name, "max", "0"]
+                for pos in nested_model(rng, d.sizes):
+                    parts += [";"] + pos + ["=>", "1"]
+                ctx.emit(" ".join(parts))
+                ctx.edges[r] = fr
+            elif rng.random() < 0.5:
+                # a model made of local events (counters): guards, moves, unchanged variables
+                parts = ["coll", r, fr.name, "max", "0"]
+                for _ in range(rng.randint(3, 7)):
+                    pos = []
+                    moved = False
+                    for sz in d.sizes:
+                        q = rng.random()
+                        if q < 0.45:
+                            pos += ["x", "="]
+                        elif q < 0.55:
+                            pos += [str(rng.randrange(sz)), "="]
+                        else:
+                            a_ = rng.randrange(sz)
+                            b_ = (a_ + rng.choice([1, 1, 1, 2])) % sz if rng.random() < 0.7 else rng.randrange(sz)
+                            pos += [str(a_), str(b_)]
+                            moved = True
+                    parts += [";"] + pos + ["=>", "1"]
+                ctx.emit(" ".join(parts))
+                ctx.edges[r] = fr
+            else:
+                gen_rel_minterms(ctx, fr, r, nmax=8, p_dc=rng.choice([0, 0.15, 0.3]), p_same=rng.choice([0.2, 0.5, 0.8]))
             if shared_event is None:
                 shared_event = r
         prev_rel = r
